@@ -110,6 +110,8 @@ def fixpoint_flags(fn):
         for (b, k, st) in defs:
             if k != "t" and st["rv"]["k"] == "use" and isinstance(st["rv"]["a"], dict) and st["rv"]["a"].get("int") in (0, 1):
                 info.append((b, k, True, st["rv"]["a"]["int"]))
+            elif k != "t" and st["rv"]["k"] == "bin" and st["rv"]["op"] == "BitOr" and any(isinstance(o, dict) and ((o.get("copy") or o.get("move") or {}).get("l") == l) and not (o.get("copy") or o.get("move"))["p"] for o in (st["rv"]["a"], st["rv"]["b"])):
+                info.append((b, k, True, 1))        # `flag |= x`: can only raise the flag - as sticky as `flag = true`
             else:
                 info.append((b, k, False, None))
         if not any(c and v == 0 for (_b, _k, c, v) in info):
@@ -128,6 +130,13 @@ def fixpoint_flags(fn):
                 if pl is not None and not pl["p"] and pl["l"] == l:
                     tests.append(S)
         if not tests:
+            # a flag that is handed back instead of tested (`fn sweep(..) -> bool { let mut changed = false; for .. { .. changed
+            # = true; } changed }`): reset once, raised inside a cycle, copied into the return place - the caller's loop tests it
+            returned = any(st["lhs"]["l"] == 0 and not st["lhs"]["p"] and st["rv"]["k"] == "use" and isinstance(st["rv"]["a"], dict) and ((st["rv"]["a"].get("copy") or st["rv"]["a"].get("move") or {}).get("l") == l)
+                           for b2 in fn.live for st in fn.blocks[b2]["s"])
+            raised_in_cycle = any(c and v == 1 and b in fn.reach_from_succ(b) for (b, _k, c, v) in info) or any((not c) and b in fn.reach_from_succ(b) for (b, _k, c, v) in info)
+            if returned and raised_in_cycle:
+                out.append((l, info))
             continue
         resets = [b for (b, _k, c, v) in info if c and v == 0]
         in_loop = any(r in fn.reach_from_succ(S) and S in fn.reach_from_succ(r) for S in tests for r in resets)
